@@ -83,8 +83,9 @@ struct equal_to {
      *
      * @return bool - Whether the values are equal.
      */
+    template<typename U = T>
     auto operator()(const T &x, const T &y) const noexcept
-            -> std::enable_if_t<Private::are_equality_comparable_v<T, T>, bool>
+            -> std::enable_if_t<Private::are_equality_comparable_v<U, U>, bool>
     {
         return std::equal_to<>{}(x, y);
     }
